@@ -3,6 +3,7 @@ from .. import gen
 from ..rateprobe import run_case, updated, common_buckets, exc_detail
 
 PROPERTY = "C03"
+TECHNIQUE = "runtime monitoring: shadow-execution (relational) monitor, bit equality across encodings of one weak order"
 LEVEL = "exploration"
 RULE = ("For each base game (dense integer ranks 0..L-1) the real rate() is re-run on fresh objects with the same "
         "(mu, sigma) under 5-8 other encodings of the same weak order: strictly increasing relabellings into ints, "
